@@ -200,7 +200,7 @@ func c07JudgeAQ(p aqP) c07Verdict {
 
 // ---- histories: the registration of an SP changes between two requests on ONE provider -----------------
 
-var c07Histories = []string{"rotate-key-redirect", "rotate-key-post", "stop-signing", "start-signing", "acs-change", "late-registration", "slo-change", "rotate-key-attrquery"}
+var c07Histories = []string{"transient-key-failure-first-request", "transient-lookup-failure-first-request", "rotate-key-redirect", "rotate-key-post", "stop-signing", "start-signing", "acs-change", "late-registration", "slo-change", "rotate-key-attrquery"}
 
 func c07History(name string) c07Verdict {
 	w, err := world.New(world.Config{})
@@ -241,6 +241,19 @@ func c07History(name string) c07Verdict {
 		return v
 	}
 	switch name {
+	case "transient-key-failure-first-request", "transient-lookup-failure-first-request":
+		// the very first storage call of that kind on this provider instance fails; afterwards storage is healthy again
+		reg(a)
+		op := map[string]string{"transient-key-failure-first-request": "GetResponseSigningKey", "transient-lookup-failure-first-request": "GetEntityByID"}[name]
+		w.Store.FaultAt(op, 1, world.FaultError)
+		sso(nil, false) // fails, whatever the reply
+		if rep := sso(nil, false); !accepted(rep) {
+			return fail("AuthnRequest after the storage recovered", rep)
+		}
+		env := msg.SOAP(msg.AttrQuery(msg.AttrQueryOpts{Issuer: a.EntityID, NameID: "alice", Destination: w.Cfg.AttributeLocation("")}))
+		if m := obs.Decode(w.Do(msg.SOAPRequest("", w.Cfg.AttributePath(), env.Render(xt.Style{})))); !m.Success() {
+			return fail("AttributeQuery after the storage recovered", nil)
+		}
 	case "rotate-key-redirect", "rotate-key-post":
 		post := name == "rotate-key-post"
 		a.AuthnRequestsSigned = "true"
@@ -345,7 +358,7 @@ func init() { Registry["C07"] = runC07 }
 func runC07(ctx Ctx) int {
 	world.PinClock()
 	run := ev.NewRun("C07")
-	run.Rule = "messages labelled conformant by the generator only. AuthnRequest: all pairs (quick) / triples (thorough) of values of 28 dimensions (serialisation style, optional parts, timestamps, transports, signing none/rsa-sha1/rsa-sha256 x KeyInfo x certificate text wrapping x signer implementation, percent-encoding style, parameter order, SAMLEncoding, SP/IdP signing requirements, issuer/endpoint configuration, ACS shapes) plus the full product of the 11-dimensional encoding/signing sub-space; LogoutRequest: k<=3 over 12 dims; AttributeQuery: k<=3 over 12 dims; plus 8 histories in which the SP's registration changes between two requests on one provider (key rotation, signing requirement switched on/off, ACS / SLO list replaced, late registration). One execution = fresh provider + one real request; oracle: AuthnRequest -> exactly one CreateAuthRequest and 303; LogoutRequest -> LogoutResponse Success; AttributeQuery -> SOAP Response Success for the queried subject"
+	run.Rule = "messages labelled conformant by the generator only. AuthnRequest: all pairs (quick) / triples (thorough) of values of 28 dimensions (serialisation style, optional parts, timestamps, transports, signing none/rsa-sha1/rsa-sha256 x KeyInfo x certificate text wrapping x signer implementation, percent-encoding style, parameter order, SAMLEncoding, SP/IdP signing requirements, issuer/endpoint configuration, ACS shapes) plus the full product of the 11-dimensional encoding/signing sub-space; LogoutRequest: k<=3 over 12 dims; AttributeQuery: k<=3 over 12 dims; plus 10 histories in which storage fails transiently or the SP's registration changes between two requests on one provider (key rotation, signing requirement switched on/off, ACS / SLO list replaced, late registration). One execution = fresh provider + one real request; oracle: AuthnRequest -> exactly one CreateAuthRequest and 303; LogoutRequest -> LogoutResponse Success; AttributeQuery -> SOAP Response Success for the queried subject"
 	run.Assume = []string{"conformance is the generator's notion (SAML core/bindings: UTC 'Z' timestamps, Destination = advertised location or absent, schema element order, RSA signatures computed over the octets sent)", "signature algorithms rsa-sha1 and rsa-sha256 only"}
 	if ctx.Replay != "" {
 		var rp c07Replay
